@@ -1,4 +1,4 @@
-/* C20 — password changes are authorised, effective and crash-atomic on disk.
+/* C20 - password changes are authorised, effective and crash-atomic on disk.
  * section 0 (authorisation and effect): every (caller identity, target account) pair; the reference decides whether the
  *   change is allowed; allowed => success, the new password authenticates, the old one does not, the file holds the new
  *   set; refused => error, the credential file is byte-identical and old passwords still work.
